@@ -16,8 +16,11 @@ import (
 	"strings"
 	"testing"
 	"testing/synctest"
+	"time"
 
 	"github.com/influxdata/influxdb/pkg/vsync"
+	"github.com/influxdata/influxdb/tsdb"
+	"github.com/influxdata/influxdb/tsdb/index/tsi1"
 	"github.com/influxdata/influxql"
 
 	ek "verif/harness/enginekit"
@@ -39,6 +42,7 @@ type scenario struct {
 var scenarios []scenario
 
 func init() {
+	scenarios = append(scenarios, scenario{name: "tsi1: DROP SERIES over two measurements x index log compaction", bound: [2]int{1, 2}, delay: true, body: tsiDeleteBody})
 	// two writers only, scheduling points narrowed to the shard's field bookkeeping: deeper bound affordable
 	scenarios = append(scenarios, scenario{name: "shard: writerA(float) x writerB(integer, same new field), field-creation focus", bound: [2]int{3, 4}, delay: true, body: shardBody, extra: "none",
 		focus: []string{"github.com/influxdata/influxdb/tsdb.(*MeasurementFields)", "github.com/influxdata/influxdb/tsdb.(*MeasurementFieldSet)", "github.com/influxdata/influxdb/tsdb.(*Shard)"}})
@@ -229,6 +233,45 @@ func shardBody(t *testing.T, sc scenario) func(tp *explore.Tape) explore.Outcome
 				return out
 			}
 		}
+		return out
+	}
+}
+
+// tsiDeleteBody: a delete spanning two measurements on a tsi1 shard whose log file is compacted after every
+// write (MaxIndexLogFileSize=1): the index compaction the first measurement's delete kicks off waits for the
+// file-set reference held by the next measurement's series iterator, while the engine waits for the compaction.
+func tsiDeleteBody(t *testing.T, sc scenario) func(tp *explore.Tape) explore.Outcome {
+	return func(tp *explore.Tape) (out explore.Outcome) {
+		dir := ek.NewTempDir("c19t")
+		defer os.RemoveAll(dir)
+		var res vsync.Result
+		var derr error
+		synctest.Test(t, func(t *testing.T) {
+			env := &ek.Env{Dir: dir, IndexType: "tsi1", WAL: true, Configure: func(s *tsdb.Store) { s.EngineOptions.Config.MaxIndexLogFileSize = 1 }}
+			if err := env.Open(); err != nil {
+				panic(err)
+			}
+			sM := ek.Series{Measurement: "m", Tags: map[string]string{"host": "b"}}
+			sN := ek.Series{Measurement: "n", Tags: map[string]string{"host": "b"}}
+			env.Write([]ek.Point{{sM, "v", 1, fv(1)}})
+			env.Write([]ek.Point{{sN, "v", 1, fv(1)}})
+			if idx, _ := env.Shard.Index(); idx != nil {
+				if ti, ok := idx.(*tsi1.Index); ok {
+					ti.Wait()
+				}
+			}
+			threads := []func(){func() { derr = env.DeleteWhere("", "host = 'b'") }}
+			res = vsync.Run(chooser(tp, sc.delay), vsync.Config{Focus: []string{"github.com/influxdata/influxdb/tsdb"}, Horizon: time.Minute}, threads...)
+			if res.Deadlock || res.Livelock {
+				out.Violation = fmt.Sprintf("DROP SERIES over two measurements never returns (deadlock=%v): %s", res.Deadlock, strings.Join(res.Stuck, "; "))
+				out.Sig = "deadlock:tsi1-delete-vs-log-compaction"
+				out.Steps = res.Steps
+				explore.Abort(tp, out)
+			}
+			env.Close()
+		})
+		out.Steps = res.Steps
+		out.Obs = fmt.Sprintf("delete err=%v", derr != nil)
 		return out
 	}
 }
